@@ -102,6 +102,18 @@ pub fn shrink_history() -> Vec<History> {
             Reopen(0), Put(1, 0),
         ],
     });
+    // the write-ahead log's block arithmetic under recovery: the first record (a 32739- resp.
+    // 32740-byte value under a one-byte key) ends 7 resp. 6 bytes before the end of the first
+    // 32 KiB block, so the record after it begins with an empty First fragment resp. behind a
+    // 6-byte trailer; then more small records, reopens with and without log reuse
+    for (name, class) in [("7-bytes-left", 9u8), ("6-bytes-left", 10u8)] {
+        v.push(History {
+            name: format!("cover-wal-block-edge-{}/D->T300n", name),
+            cfgs: cfgs(&["D", "T300n"]),
+            keys: vec![b"c".to_vec(), b"e".to_vec(), b"f".to_vec()],
+            ops: vec![Put(0, class), Put(1, 0), Put(2, 0), Del(1), Reopen(0), Put(1, 0), Put(0, class), Put(2, 0), Reopen(1), Put(1, 0), Reopen(0), Put(2, 0)],
+        });
+    }
     // levels 1..=5 limited to 250 bytes: every flush sets off a cascade of size-triggered
     // compactions and trivial moves down to the last level (crash / fault inside the cascade)
     v.push(History {
